@@ -135,8 +135,8 @@ Theorem C09_merge_sound_obj :
   forall (re_match fmt_ok : ustring -> ustring -> bool) (o : vopts) (DV : defs) (n : nat)
          (tx : itype) (D : defs) (f : nat) (a b m : schema),
     tx = TNumber \/ tx = TInteger ->
-    obj_frag false tx a = true -> obj_frag false tx b = true -> merge D f a b = MOk m ->
-    obj_frag false tx m = true /\
+    obj_frag false false tx a = true -> obj_frag false false tx b = true -> merge D f a b = MOk m ->
+    obj_frag false false tx m = true /\
     forall v, wf_json v = true ->
               validx re_match fmt_ok o DV n m v = validx re_match fmt_ok o DV n a v && validx re_match fmt_ok o DV n b v.
 Proof. exact merge_sound_obj. Qed.
@@ -145,7 +145,7 @@ Theorem C09_merge_never_obj :
   forall (re_match fmt_ok : ustring -> ustring -> bool) (o : vopts) (DV : defs) (n : nat)
          (tx : itype) (D : defs) (f : nat) (a b : schema),
     tx = TNumber \/ tx = TInteger ->
-    obj_frag false tx a = true -> obj_frag false tx b = true -> merge D f a b = MNever ->
+    obj_frag false false tx a = true -> obj_frag false false tx b = true -> merge D f a b = MNever ->
     forall v, wf_json v = true ->
               validx re_match fmt_ok o DV n a v && validx re_match fmt_ok o DV n b v = false.
 Proof. exact merge_never_obj. Qed.
@@ -160,8 +160,8 @@ Theorem C09_merge_sound_arr :
   forall (re_match fmt_ok : ustring -> ustring -> bool) (o : vopts) (DV : defs) (n : nat)
          (tx : itype) (D : defs) (f : nat) (a b m : schema),
     tx = TNumber \/ tx = TInteger ->
-    obj_frag true tx a = true -> obj_frag true tx b = true -> merge D f a b = MOk m ->
-    obj_frag true tx m = true /\
+    obj_frag true false tx a = true -> obj_frag true false tx b = true -> merge D f a b = MOk m ->
+    obj_frag true false tx m = true /\
     forall v, wf_json v = true -> no_empty_arr v = true ->
               validx re_match fmt_ok o DV n m v = validx re_match fmt_ok o DV n a v && validx re_match fmt_ok o DV n b v.
 Proof. exact merge_sound_arr. Qed.
@@ -170,7 +170,7 @@ Theorem C09_merge_never_arr :
   forall (re_match fmt_ok : ustring -> ustring -> bool) (o : vopts) (DV : defs) (n : nat)
          (tx : itype) (D : defs) (f : nat) (a b : schema),
     tx = TNumber \/ tx = TInteger ->
-    obj_frag true tx a = true -> obj_frag true tx b = true -> merge D f a b = MNever ->
+    obj_frag true false tx a = true -> obj_frag true false tx b = true -> merge D f a b = MNever ->
     forall v, wf_json v = true -> no_empty_arr v = true ->
               validx re_match fmt_ok o DV n a v && validx re_match fmt_ok o DV n b v = false.
 Proof. exact merge_never_arr. Qed.
@@ -178,18 +178,18 @@ Proof. exact merge_never_arr. Qed.
 (* the same with Spec/Valid.v's three-valued discipline: Valid = definite at some fuel and true
    ([wa] = false: objects, instances [wf_json]; [wa] = true: with arrays, instances additionally [no_empty_arr]) *)
 Theorem C09_merge_sound_obj_Valid :
-  forall (re_match fmt_ok : ustring -> ustring -> bool) (DV : defs) (wa : bool) (tx : itype),
+  forall (re_match fmt_ok : ustring -> ustring -> bool) (DV : defs) (wa tm : bool) (tx : itype),
     tx = TNumber \/ tx = TInteger ->
     forall (D : defs) (f : nat) (a b m : schema) (v : json),
-      obj_frag wa tx a = true -> obj_frag wa tx b = true -> merge D f a b = MOk m -> inst_ok wa v = true ->
+      obj_frag wa tm tx a = true -> obj_frag wa tm tx b = true -> merge D f a b = MOk m -> inst_ok wa v = true ->
       (Valid re_match fmt_ok DV m v <-> Valid re_match fmt_ok DV a v /\ Valid re_match fmt_ok DV b v).
 Proof. exact merge_frag_exact_Valid. Qed.
 
 Theorem C09_merge_never_obj_Valid :
-  forall (re_match fmt_ok : ustring -> ustring -> bool) (DV : defs) (wa : bool) (tx : itype),
+  forall (re_match fmt_ok : ustring -> ustring -> bool) (DV : defs) (wa tm : bool) (tx : itype),
     tx = TNumber \/ tx = TInteger ->
     forall (D : defs) (f : nat) (a b : schema) (v : json),
-      obj_frag wa tx a = true -> obj_frag wa tx b = true -> merge D f a b = MNever -> inst_ok wa v = true ->
+      obj_frag wa tm tx a = true -> obj_frag wa tm tx b = true -> merge D f a b = MNever -> inst_ok wa v = true ->
       ~ (Valid re_match fmt_ok DV a v /\ Valid re_match fmt_ok DV b v).
 Proof. exact merge_frag_never_Valid. Qed.
 
@@ -197,18 +197,18 @@ Proof. exact merge_frag_never_Valid. Qed.
    merges to the SAME INSTANCE SET (never = the empty set); the merged schemas may differ syntactically.
    [defined r] = r is Ok or never (not a panic / not outside the model / enough fuel). *)
 Theorem C09_merge_all_exact_obj :
-  forall (re_match fmt_ok : ustring -> ustring -> bool) (o : vopts) (DV : defs) (n : nat) (wa : bool) (tx : itype),
+  forall (re_match fmt_ok : ustring -> ustring -> bool) (o : vopts) (DV : defs) (n : nat) (wa tm : bool) (tx : itype),
     tx = TNumber \/ tx = TInteger ->
     forall (D : defs) (f : nat) (L : list schema) (v : json),
-      L <> [] -> forallb (obj_frag wa tx) L = true -> defined (merge_all D f L) = true -> inst_ok wa v = true ->
+      L <> [] -> forallb (obj_frag wa tm tx) L = true -> defined (merge_all D f L) = true -> inst_ok wa v = true ->
       inst_set re_match fmt_ok o DV n (merge_all D f L) v = forallb (fun s => validx re_match fmt_ok o DV n s v) L.
 Proof. exact merge_all_inst. Qed.
 
 Theorem C09_merge_all_perm_equiv :
-  forall (re_match fmt_ok : ustring -> ustring -> bool) (o : vopts) (DV : defs) (n : nat) (wa : bool) (tx : itype),
+  forall (re_match fmt_ok : ustring -> ustring -> bool) (o : vopts) (DV : defs) (n : nat) (wa tm : bool) (tx : itype),
     tx = TNumber \/ tx = TInteger ->
     forall (D : defs) (f : nat) (L L' : list schema) (v : json),
-      Permutation L L' -> forallb (obj_frag wa tx) L = true ->
+      Permutation L L' -> forallb (obj_frag wa tm tx) L = true ->
       defined (merge_all D f L) = true -> defined (merge_all D f L') = true -> inst_ok wa v = true ->
       inst_set re_match fmt_ok o DV n (merge_all D f L) v = inst_set re_match fmt_ok o DV n (merge_all D f L') v.
 Proof. exact merge_all_perm_equiv_frag. Qed.
@@ -277,8 +277,8 @@ Proof. exact obj_example_never. Qed.
 
 (* nested objects + required + additionalProperties schema + closed inner member + an allOf member *)
 Example C09_obj_exact_example :
-  obj_frag false TNumber ex_a = true /\ obj_frag false TNumber ex_b = true /\
-  exists m, merge [] 6 ex_a ex_b = MOk m /\ obj_frag false TNumber m = true
+  obj_frag false false TNumber ex_a = true /\ obj_frag false false TNumber ex_b = true /\
+  exists m, merge [] 6 ex_a ex_b = MOk m /\ obj_frag false false TNumber m = true
             /\ Vd [] 0 m ex_v_ok = true /\ Vd [] 0 ex_a ex_v_ok = true /\ Vd [] 0 ex_b ex_v_ok = true
             /\ Vd [] 0 m ex_v_bad1 = false /\ Vd [] 0 ex_b ex_v_bad1 = false
             /\ Vd [] 0 m ex_v_bad2 = false /\ Vd [] 0 ex_b ex_v_bad2 = false
@@ -286,7 +286,7 @@ Example C09_obj_exact_example :
 Proof. exact obj_exact_example. Qed.
 
 Example C09_obj_never_example :
-  obj_frag false TNumber ex_a = true /\ obj_frag false TNumber ex_closed = true /\ merge [] 6 ex_a ex_closed = MNever.
+  obj_frag false false TNumber ex_a = true /\ obj_frag false false TNumber ex_closed = true /\ merge [] 6 ex_a ex_closed = MNever.
 Proof. exact obj_never_example. Qed.
 
 Example C09_obj_perm_example :
@@ -297,15 +297,15 @@ Example C09_obj_perm_example :
 Proof. exact obj_perm_example. Qed.
 
 Example C09_arr_exact_example :
-  obj_frag true TNumber exa_a = true /\ obj_frag true TNumber exa_b = true /\
-  exists m, merge [] 6 exa_a exa_b = MOk m /\ obj_frag true TNumber m = true
+  obj_frag true false TNumber exa_a = true /\ obj_frag true false TNumber exa_b = true /\
+  exists m, merge [] 6 exa_a exa_b = MOk m /\ obj_frag true false TNumber m = true
             /\ Vd [] 0 m exa_v_ok = true /\ Vd [] 0 m exa_v_dup = false /\ Vd [] 0 exa_b exa_v_dup = false
             /\ Vd [] 0 m exa_v_long = false /\ Vd [] 0 exa_a exa_v_long = false
             /\ inst_ok true exa_v_ok = true.
 Proof. exact arr_exact_example. Qed.
 
 Example C09_arr_never_example :
-  obj_frag true TNumber exa_a = true /\ obj_frag true TNumber exa_c = true /\ merge [] 6 exa_a exa_c = MNever
+  obj_frag true false TNumber exa_a = true /\ obj_frag true false TNumber exa_c = true /\ merge [] 6 exa_a exa_c = MNever
   /\ Vd [] 0 exa_a (JObj [([116%N], JArr [])]) = true /\ Vd [] 0 exa_c (JObj [([116%N], JArr [])]) = true
   /\ no_empty_arr (JObj [([116%N], JArr [])]) = false.
 Proof. exact arr_never_example. Qed.
